@@ -93,3 +93,12 @@ package odt
 //@   atreturn#4 equals_a_footer_line: opts.ExcludeFooters && footerLine != "" && sameseq(trimmedText, footerLine)
 //@   ensures nothing_asked_nothing_deleted: !opts.ExcludeHeaders && !opts.ExcludeFooters ==> !r0
 //@   ensures empty_text_is_kept: text == "" ==> !r0
+
+// ---- C02: an archive member read into memory is at most maxPartSize bytes long (or the read is an error) ----
+//@ func readPart results (data, err)
+//@   property C02
+//@   ensures member_size_is_bounded: !err ==> len(data) <= maxPartSize
+//@ func (*Reader) getFileContent
+//@   property C02
+//@   flags callsites
+//@   callsite io.ReadAll(x) requires members_are_read_through_readPart: false
